@@ -84,13 +84,16 @@ func (o *oracle) readTs() uint64 {
 	o.Lock()
 	readTs = o.nextTxnTs - 1
 	o.readMark.Begin(readTs)
+	y.VerifPoint("readTs.begin")
 	o.Unlock()
 
 	// Wait for all txns which have no conflicts, have been assigned a commit
 	// timestamp and are going through the write to value log and LSM tree
 	// process. Not waiting here could mean that some txns which have been
 	// committed would not be read.
+	y.VerifPoint("readTs.wait")
 	y.Check(o.txnMark.WaitForMark(context.Background(), readTs))
+	y.VerifPoint("readTs.done")
 	return readTs
 }
 
@@ -524,10 +527,12 @@ func (txn *Txn) commitAndSend() (func() error, error) {
 	// the order in which we push these updates to the write channel. So, we
 	// acquire a writeChLock before getting a commit timestamp, and only release
 	// it after pushing the entries to it.
+	y.VerifPoint("commit.enter")
 	orc.writeChLock.Lock()
 	defer orc.writeChLock.Unlock()
 
 	commitTs, conflict := orc.newCommitTs(txn)
+	y.VerifPoint("commit.ts")
 	if conflict {
 		return nil, ErrConflict
 	}
@@ -591,12 +596,14 @@ func (txn *Txn) commitAndSend() (func() error, error) {
 	}
 
 	req, err := txn.db.sendToWriteCh(entries)
+	y.VerifPoint("commit.sent")
 	if err != nil {
 		orc.doneCommit(commitTs)
 		return nil, err
 	}
 	ret := func() error {
 		err := req.Wait()
+		y.VerifPoint("commit.applied")
 		// Wait before marking commitTs as done.
 		// We can't defer doneCommit above, because it is being called from a
 		// callback here.
